@@ -292,8 +292,11 @@ func hdrOracle(o *common.Out, id string, h0 protocol.Header, op string, v uint64
 
 // c01Big: round trip of a message whose payload is far beyond what is worth handing to the model as a byte list
 // (several MiB): property oracle only - Read(Encode(m)) = m for both encoders.
-func c01Big(o *common.Out, id string, size, ct int, seed uint64) {
-	abstract := fmt.Sprintf("big|%d|%d|%d", size, ct, seed)
+func c01Big(o *common.Out, id string, size, ct int, seed uint64, maxlen int) {
+	abstract := fmt.Sprintf("big|%d|%d|%d|%d", size, ct, seed, maxlen)
+	// MaxMessageLength limits the FRAME a reader accepts; a compressed payload may inflate beyond it
+	protocol.MaxMessageLength = maxlen
+	defer func() { protocol.MaxMessageLength = 0 }()
 	o.Begin(id, abstract)
 	rr := common.NewRand(seed)
 	// compressible but not trivial: a random 4 KiB block repeated with a counter stamped into each copy
@@ -362,7 +365,11 @@ func runC01(r *common.Rand, tier string, o *common.Out, replay string) {
 			size, _ := strconv.Atoi(p[1])
 			ct, _ := strconv.Atoi(p[2])
 			seed, _ := strconv.ParseUint(p[3], 10, 64)
-			c01Big(o, "replay", size, ct, seed)
+			maxlen := 0
+			if len(p) > 4 {
+				maxlen, _ = strconv.Atoi(p[4])
+			}
+			c01Big(o, "replay", size, ct, seed, maxlen)
 			return
 		}
 		c01Enc(o, "replay", c01parse(replay))
@@ -457,7 +464,11 @@ func runC01(r *common.Rand, tier string, o *common.Out, replay string) {
 	}
 	for i, size := range bigSizes {
 		for ct := 0; ct <= 2; ct++ {
-			c01Big(o, fmt.Sprintf("b%d-%d", i, ct), size, ct, r.U64())
+			c01Big(o, fmt.Sprintf("b%d-%d", i, ct), size, ct, r.U64(), 0)
 		}
+	}
+	// a frame limit is configured and the (compressible) payload is larger than the limit while its frame is not
+	for ct := 1; ct <= 2; ct++ {
+		c01Big(o, fmt.Sprintf("bl-%d", ct), 300<<10, ct, r.U64(), 64<<10)
 	}
 }
